@@ -2,6 +2,7 @@ package c19
 
 import (
 	"bufio"
+	"bytes"
 	"crypto/tls"
 	"fmt"
 	"net"
@@ -223,3 +224,150 @@ func TestC19IpcPermissions(t *testing.T) {
 }
 
 var _ = mangos.OptionRaw
+
+// TestC19MaxRecvSizeEffect: an accepted MAX-RCV-SIZE governs the connections made after it was
+// set, wherever it was set (socket or endpoint, before or after Listen / Dial): a message whose
+// size equals the limit is delivered, one byte more is never delivered.
+func TestC19MaxRecvSizeEffect(t *testing.T) {
+	stats.ScaledChecks(20, 8, func() {
+		rapid.Check(t, func(t *rapid.T) {
+			tr := rapid.SampledFrom([]string{"tcp", "ipc", "tls+tcp"}).Draw(t, "transport")
+			role := rapid.SampledFrom([]string{"listener", "dialer"}).Draw(t, "receiverIs")
+			where := rapid.SampledFrom([]string{"socket-before", "endpoint-before", "socket-after", "endpoint-after"}).Draw(t, "setWhere")
+			limit := rapid.SampledFrom([]int{1, 64, 100, 1000, 4096, 70000}).Draw(t, "limit")
+			was := rapid.SampledFrom([]int{0, 1 << 20, 16}).Draw(t, "previousLimit")
+			doc := map[string]interface{}{"test": "TestC19MaxRecvSizeEffect", "transport": tr, "receiver_is": role, "set": where, "limit": limit, "previous": was, "rseed": os.Getenv("VERIF_RSEED")}
+			fail := func(k, f string, a ...interface{}) {
+				stats.Fail(t, "C19:maxrecv-effect:"+k, doc, "pull %s over %s, MAX-RCV-SIZE %d set %s (previously %d): %s", role, tr, limit, where, was, fmt.Sprintf(f, a...))
+			}
+			R, P := fixture.New("pull"), fixture.New("push")
+			defer R.Close()
+			defer P.Close()
+			_ = R.SetOption(mangos.OptionRecvDeadline, 200*time.Millisecond)
+			_ = P.SetOption(mangos.OptionSendDeadline, 2*time.Second)
+			addr := fixture.Addr(tr)
+			set := func(o interface {
+				SetOption(string, interface{}) error
+			}, v int) bool {
+				if err := o.SetOption(mangos.OptionMaxRecvSize, v); err != nil {
+					fail("set", "SetOption(MAX-RCV-SIZE,%d): %v", v, err)
+					return false
+				}
+				return true
+			}
+			if !set(R, was) {
+				return
+			}
+			if where == "socket-before" && !set(R, limit) {
+				return
+			}
+			fast := func(o map[string]interface{}) map[string]interface{} {
+				if o == nil {
+					o = map[string]interface{}{}
+				}
+				o[mangos.OptionDialAsynch] = true
+				o[mangos.OptionReconnectTime] = 5 * time.Millisecond
+				o[mangos.OptionMaxReconnectTime] = 5 * time.Millisecond
+				return o
+			}
+			var ep interface {
+				SetOption(string, interface{}) error
+				GetOption(string) (interface{}, error)
+			}
+			if role == "listener" {
+				l, err := R.NewListener(addr, fixture.ListenOpts(tr))
+				if err != nil {
+					t.Fatalf("harness: %v", err)
+				}
+				ep = l
+				if where == "endpoint-before" && !set(l, limit) {
+					return
+				}
+				if err := l.Listen(); err != nil {
+					t.Skip("port busy")
+				}
+			} else {
+				d, err := R.NewDialer(addr, fast(fixture.DialOpts(tr)))
+				if err != nil {
+					t.Fatalf("harness: %v", err)
+				}
+				ep = d
+				if where == "endpoint-before" && !set(d, limit) {
+					return
+				}
+				if err := d.Dial(); err != nil { // nobody listens yet: the connection is made later
+					fail("dial", "asynchronous Dial: %v", err)
+					return
+				}
+			}
+			switch where {
+			case "socket-after":
+				if !set(R, limit) {
+					return
+				}
+			case "endpoint-after":
+				if !set(ep, limit) {
+					return
+				}
+			}
+			if v, err := ep.GetOption(mangos.OptionMaxRecvSize); err != nil || v != limit {
+				fail("get", "the %s reports MAX-RCV-SIZE (%v,%v), want %d", role, v, err, limit)
+				return
+			}
+			// only now does the peer appear
+			if role == "listener" {
+				if err := P.DialOptions(addr, fast(fixture.DialOpts(tr))); err != nil {
+					t.Fatalf("harness: %v", err)
+				}
+			} else if err := P.ListenOptions(addr, fixture.ListenOpts(tr)); err != nil {
+				t.Skip("port busy")
+			}
+			exact := fixture.Payload(1, limit)
+			over := fixture.Payload(2, limit+1)
+			sentinel := []byte("Z")
+			recvUntil := func(want []byte, resend []byte, d time.Duration) (bool, bool) {
+				sawOver := false
+				deadline := time.Now().Add(d)
+				for time.Now().Before(deadline) {
+					if resend != nil {
+						_ = P.Send(resend)
+					}
+					b, err := R.Recv()
+					if err != nil {
+						continue
+					}
+					if bytes.Equal(b, over) {
+						sawOver = true
+					}
+					if bytes.Equal(b, want) {
+						return true, sawOver
+					}
+				}
+				return false, sawOver
+			}
+			if err := P.Send(exact); err != nil {
+				fail("send", "peer could not send: %v", err)
+				return
+			}
+			ok, _ := recvUntil(exact, nil, 3*time.Second)
+			if !ok {
+				fail("at-limit-not-delivered", "a message of exactly %d bytes was not delivered within 3s", limit)
+				return
+			}
+			_ = P.Send(over)
+			ok, sawOver := recvUntil(sentinel, sentinel, 3*time.Second)
+			if sawOver {
+				fail("over-limit-delivered", "a message of %d bytes was delivered although the limit in force is %d", limit+1, limit)
+				return
+			}
+			if !ok {
+				fail("no-recovery", "after the oversize message no further message arrived within 3s")
+				return
+			}
+			stats.Eval()
+			stats.Class("maxrecv_effect:" + where)
+			stats.NonTrivial(fmt.Sprintf("mre|%s|%s|%s|%d|%d", tr, role, where, limit, was))
+			stats.Sample(doc)
+		})
+	})
+}
